@@ -618,6 +618,28 @@ func (k *core) checkEventsRefreshedOnEnable(rule string) {
 	if n == 0 {
 		c.bad(rule, relName(k.monitor), k.monitor.Pos(), "no enable helper found")
 	}
+	// the flush above takes exactly one parked config out: the channel must not be able to park more than one
+	for _, f := range k.w.funcsIn("") {
+		for _, i := range allInstrs(f) {
+			mc, ok := i.(*ssa.MakeChan)
+			if !ok {
+				continue
+			}
+			for _, r := range *mc.Referrers() {
+				st, ok := r.(*ssa.Store)
+				if !ok {
+					continue
+				}
+				fa, ok := st.Addr.(*ssa.FieldAddr)
+				if !ok || !sameField(fieldVar(fa.X.Type(), fa.Field), k.fUpdates) {
+					continue
+				}
+				sz, isC := constInt(mc.Size)
+				c.check(isC && sz == 1, rule, relName(f)+"#capacity", mc.Pos(), "the Events channel parks at most one config, the one the enable helper's flush replaces",
+					"the Events channel can park more than one config, but the enable helper's flush replaces only one: configs sent while verification was delayed (never verified) are still delivered to an Events consumer after EnableVerification succeeded")
+			}
+		}
+	}
 }
 
 // sharesLoad: a and b derive from the same ViewVersion/load call result.
